@@ -30,6 +30,8 @@ Suppressions:
 from dataclasses import dataclass, field
 from typing import Any
 
+from src.core.linter_utils import require_number
+
 # Default allowed numbers including common small integers and standard ports
 DEFAULT_ALLOWED_NUMBERS: set[int | float] = {
     # Common small integers
@@ -55,6 +57,13 @@ DEFAULT_ALLOWED_NUMBERS: set[int | float] = {
 }
 
 
+def _number_set(value: Any) -> set[int | float]:
+    """Build the allowed-number set; a scalar where the list belongs is a configuration error."""
+    if not isinstance(value, (list, tuple, set, frozenset)):
+        raise ValueError(f"allowed_numbers must be a list of numbers, got {value!r}")
+    return set(value)
+
+
 @dataclass
 class MagicNumberConfig:
     """Configuration for magic numbers linter."""
@@ -69,6 +78,7 @@ class MagicNumberConfig:
 
     def __post_init__(self) -> None:
         """Validate configuration values."""
+        require_number("max_small_integer", self.max_small_integer)
         if self.max_small_integer <= 0:
             raise ValueError(f"max_small_integer must be positive, got {self.max_small_integer}")
 
@@ -87,7 +97,7 @@ class MagicNumberConfig:
         # Get language-specific config if available
         if language and language in config:
             lang_config = config[language]
-            allowed_numbers = set(
+            allowed_numbers = _number_set(
                 lang_config.get(
                     "allowed_numbers",
                     config.get("allowed_numbers", DEFAULT_ALLOWED_NUMBERS),
@@ -97,7 +107,7 @@ class MagicNumberConfig:
                 "max_small_integer", config.get("max_small_integer", 10)
             )
         else:
-            allowed_numbers = set(config.get("allowed_numbers", DEFAULT_ALLOWED_NUMBERS))
+            allowed_numbers = _number_set(config.get("allowed_numbers", DEFAULT_ALLOWED_NUMBERS))
             max_small_integer = config.get("max_small_integer", 10)
 
         ignore_patterns = config.get("ignore", [])
